@@ -103,7 +103,7 @@ func Run(r *core.Run) {
 		docs = append(docs, `{"publicKey":[`+strings.Join(forms, ",")+`]}`)
 	}
 	// further members whose values are "empty": an empty list, object and string, null, zero, false - alone and next to keys, services, also-known-as
-	for vi, v := range []string{`[]`, `{}`, `""`, `null`, `0`, `false`, `[[]]`, `{"inner":[]}`} {
+	for vi, v := range []string{`[]`, `{}`, `""`, `null`, `0`, `false`, `[[]]`, `{"inner":[]}`, `{"name":"alice","nickname":null}`, `["x",null,"y"]`, `{"a":{"b":{"c":null,"d":[null]}}}`, `[null]`} {
 		docs = append(docs, `{"publicKey":[`+k[0]+`],"service":[`+s[0]+`],"alsoKnownAs":[`+a[0]+`],"tags":`+v+`,"scalar":"v"}`, `{"empty`+fmt.Sprint(vi)+`":`+v+`}`, `{"publicKey":[`+k[0]+`],"a":`+v+`,"z":`+v+`}`)
 	}
 	// documents without keys as well
